@@ -26,6 +26,9 @@ static void dump_page(mi_page_t* page) {
   printf("\n");
 }
 static void* remote_free(void* p) { mi_free(p); return NULL; }
+// heap walk of one page (C12): the indices handed to the visitor
+static size_t vis_idx[70000]; static size_t vis_n; static uint8_t* vis_start; static size_t vis_bs;
+static bool vis_fn(const mi_heap_t* h, const mi_heap_area_t* a, void* b, size_t bsz, void* arg) { (void)h; (void)a; (void)bsz; (void)arg; if (b && vis_n < 70000) vis_idx[vis_n++] = (size_t)(((uint8_t*)b - vis_start) / vis_bs); return true; }
 static void page_mode(long steps) {
   static const size_t BS[] = { 8, 16, 48, 64, 112, 320, 1024, 4096, 20000, 70000 };
   for (int c = 0; c < 10; c++) {
@@ -56,7 +59,10 @@ static void page_mode(long steps) {
         if (nh <= 1) { printf("PG nop"); } else { int k = 1 + (int)(rnd() % (nh - 1)); void* b = held[k]; held[k] = held[--nh]; mi_free(b); printf("PG free %zu", (size_t)(((uint8_t*)b - start) / bs)); }
       } else if (op < 85) {
         if (nh <= 1) { printf("PG nop"); } else { int k = 1 + (int)(rnd() % (nh - 1)); void* b = held[k]; held[k] = held[--nh]; pthread_t t; pthread_create(&t, NULL, &remote_free, b); pthread_join(t, NULL); printf("PG rfree %zu", (size_t)(((uint8_t*)b - start) / bs)); }
-      } else if (op < 90) { _mi_page_thread_free_collect(page); printf("PG tfcollect");
+      } else if (op < 87) { _mi_page_thread_free_collect(page); printf("PG tfcollect");
+      } else if (op < 90) { mi_heap_area_ex_t xa; _mi_heap_area_init(&xa.area, page); xa.page = page; vis_n = 0; vis_start = start; vis_bs = bs;
+        _mi_heap_area_visit_blocks(&xa.area, page, &vis_fn, NULL);
+        printf("PG visit used=%zu [", xa.area.used); for (size_t i = 0; i < vis_n; i++) printf("%s%zu", i ? "," : "", vis_idx[i]); printf("]");
       } else if (op < 95) { _mi_page_free_collect(page, false); printf("PG collect 0");
       } else if (op < 98) { _mi_page_free_collect(page, true); printf("PG collect 1");
       } else { if (page->capacity < page->reserved) { unsigned c0 = page->capacity; mi_page_extend_free(h, page, h->tld); printf("PG extend %u", (unsigned)(page->capacity - c0)); } else printf("PG nop"); }
